@@ -707,6 +707,8 @@ class Interp:
                 env.vars.setdefault(n, None)
         # preconditions
         for i, r in enumerate(c.requires):
+            if getattr(c, "requires_are_representation_invariant", False):
+                break  # the callee's precondition is its own object's invariant (established by the constructor, preserved by every method: its own contracts), not a caller's obligation
             if "EXCLUDED REGION" in r:
                 continue  # the region of a live known finding of the CALLEE is not a precondition its callers must establish
             t = truthy(self.eval_spec(r, env))
